@@ -209,21 +209,6 @@ theorem cinv_after {c : Cfg} {rank : Nat → Nat} (hc : SlotOK c rank) {s s' : S
       · split at hs <;> simp at hs <;> subst hs <;> csame h ht hpc
       · simp at hs
 
-/-- The slot a push is about to fill is empty. -/
-theorem fresh_slot_empty {c : Cfg} {rank : Nat → Nat} (hc : SlotOK c rank) {s : St} {t : Tid} {v : Int} {i : Nat}
-    (hl : LInv c s) (hsi : SInv c rank s) (hpc : s.pc t = .pUnlSz v i) : s.val i = none := by
-  have hwf := hl.wfp t
-  have hwi := (hsi.loc t).wi i (by simp [hpc, incIdx])
-  have ho : s.own 0 = some t := hl.ow2 0 t (by simp [hpc, holds])
-  simp only [hpc, wf] at hwf
-  have hr1 : rank i = s.cnt := by rw [hwi.1]; exact hc.rank_slot _ hwi.2 hl.cntle
-  have := hsi.shO i t ho hwf.1 hwf.2
-  simp only [hpc, pinc, pdec] at this
-  apply hsi.te1
-  apply Classical.byContradiction; intro hne
-  have := this.1 hne
-  omega
-
 set_option maxHeartbeats 1000000 in
 theorem cinv_dcompare {c : Cfg} {s s1 s' : St} {t : Tid} {par ch : Nat} {pv : Option Int} (h : CInv c s)
     (ht : t < c.nthr) (hheld : heldOf (s.pc t) = pv) (hpar : par < c.cap + 1) (hch : ch < c.cap + 1) (hne : ch ≠ par)
